@@ -179,9 +179,20 @@ CORPUS = [
 
 def run(ctx, model_ok):
     rng = ctx.rng
-    n = 70 if ctx.tier == "quick" else 800
+    n = 40 if ctx.tier == "quick" else 800
     cases = [dict(rp) for rp in getattr(ctx, "known_replays", [])] + [dict(c) for c in CORPUS]
-    while len(cases) < n:
+    # every AST event alone against ALL events, on hand-written feature programs (statement expansion, docstring look-alikes,
+    # chains, loops, brackets ...): interactions between one event's sites and any other event's show up here
+    import battery
+    bat = sorted(battery.programs().items())
+    evs, _ = rc.all_ast_events()
+    reps = len(bat)
+    for i, e in enumerate(evs):
+        for r in range(reps):
+            name, src = bat[(i + r + ctx.seed) % len(bat)]
+            cases.append({"src": src, "e1": [e], "e2": list(evs), "guards": rng.random() < 0.5, "battery": name})
+    nbat = len(cases)
+    while len(cases) < nbat + n:
         cases.append(gen_case(rng))
     impl = run_impl(cases)
     failures = []
@@ -197,6 +208,8 @@ def run(ctx, model_ok):
     rows, idx = [], []
     for i, im in enumerate(impl):
         cf = im.get("configs", [{}, {}])
+        if "battery" in cases[i] and ctx.tier == "quick" and i % 8 != ctx.seed % 8:
+            continue                # quick tier: certificates for one in eight of the battery pairs (the oracle runs on all of them)
         if all("out_tree" in r for r in cf) and max(r["out_nodes"] for r in cf) <= 9000:
             rows.append((cf[0]["out_tree"], cf[1]["out_tree"], cases[i]["e1"], cases[i]["e1"], cases[i]["e2"]))
             idx.append(i)
@@ -222,7 +235,7 @@ def run(ctx, model_ok):
         "evaluations": len(cases),
         "distinct_nontrivial": len({lib.digest(c) for c, im in zip(cases, impl)
                                     if "configs" in im and "streams" in im["configs"][0] and len(im["configs"][0]["streams"][0]) >= 3}),
-        "rule": "generated programs (see C01) x pairs E1 within E2 (E2 = all AST events incl. the deferred ones, or density 0.9/0.5; E1 = one event, a before/after "
+        "rule": "(a) 6 hand-written feature programs x every AST event alone vs all events; (b) generated programs (see C01) x pairs E1 within E2 (E2 = all AST events incl. the deferred ones, or density 0.9/0.5; E1 = one event, a before/after "
                 "pair, density 0.1/0.5 of E2) x global guards on/off; both rewrites exported and run; stream under E1 compared with the stream under E2 "
                 "filtered to E1 (event, node type, node span, value), in order; non-trivial = >=3 occurrences under E1; distinct by sha1",
         "samples": [{"e1": cases[-1]["e1"][:6], "e2_size": len(cases[-1]["e2"]), "guards": cases[-1]["guards"], "src_tail": cases[-1]["src"][-300:]}],
